@@ -342,6 +342,89 @@ Section Evidences.
 End Evidences.
 
 (* ===================================================================== *)
+(* Part 3b: the StateDB's object cache of staking records                 *)
+(*          (core/state/statedb_staking.go, staking/delegation_handler.go) *)
+(* ===================================================================== *)
+
+(* trie content, live objects (stakingRecords), dirty keys (stakingRecordsDirty) *)
+Record srdb := mkSr { sr_trie : gmap Z; sr_cache : gmap Z; sr_dirty : list N }.
+(* state.New on a root: empty caches *)
+Definition sr_fresh (trie : gmap Z) : srdb := mkSr trie gempty [].
+
+(* getStakingRecord: prefer the live object, otherwise load it from the trie
+   into the live set *)
+Definition sr_load (s : srdb) (k : N) : srdb * option Z :=
+  match sr_cache s k with
+  | Some v => (s, Some v)
+  | None =>
+    match sr_trie s k with
+    | Some v => (mkSr (sr_trie s) (upd (sr_cache s) k (Some v)) (sr_dirty s), Some v)
+    | None => (s, None)
+    end
+  end.
+(* GetStakingRecordValue: a COPY of the final value, 0 when there is no record *)
+Definition sr_get (s : srdb) (k : N) : srdb * Z :=
+  let '(s', o) := sr_load s k in (s', match o with Some v => v | None => 0 end).
+(* AddStakingRecord with a new final value: write the live object, mark dirty *)
+Definition sr_add (s : srdb) (k : N) (v : Z) : srdb :=
+  let '(s', _) := sr_load s k in
+  mkSr (sr_trie s') (upd (sr_cache s') k (Some v)) (k :: sr_dirty s').
+(* updateStakingTrie (IntermediateRoot): write every dirty live object *)
+Definition sr_flush (s : srdb) : srdb :=
+  mkSr (fold_left (fun t k => upd t k (sr_cache s k)) (sr_dirty s) (sr_trie s)) (sr_cache s) [].
+(* ResetStakingTrie (first block of a period) *)
+Definition sr_reset (_ : srdb) : srdb := mkSr gempty gempty [].
+
+(* checkAndUpdateTotalPendingStakesOfValidator: the arithmetic is done on the
+   copy; nothing is written on the errStakesOverflow return *)
+Definition sr_check (stake_unit max_stake : Z) (s : srdb) (k : N) (val_token delta : Z) : srdb * bool :=
+  let '(s1, t0) := sr_get s k in
+  let t1 := if t0 =? 0 then val_token else t0 in
+  let t2 := t1 + delta in
+  let t3 := if t2 <? 0 then 0 else t2 in
+  if (0 <? delta) && (0 <? max_stake) && (max_stake <? t3 / stake_unit) then (s1, false)
+  else (sr_add s1 k t3, true).
+
+(* the variant a seeded change produced (GetStakingRecordValue returning the live
+   big.Int): the arithmetic lands in the live object, which is not marked dirty
+   on the overflow return.  Only used for the counter-example. *)
+Definition sr_check_alias (stake_unit max_stake : Z) (s : srdb) (k : N) (val_token delta : Z) : srdb * bool :=
+  let '(s1, o) := sr_load s k in
+  let t0 := match o with Some v => v | None => 0 end in
+  let t1 := if t0 =? 0 then val_token else t0 in
+  let t2 := t1 + delta in
+  let t3 := if t2 <? 0 then 0 else t2 in
+  if (0 <? delta) && (0 <? max_stake) && (max_stake <? t3 / stake_unit)
+  then (match o with
+        | Some _ => mkSr (sr_trie s1) (upd (sr_cache s1) k (Some t3)) (sr_dirty s1)
+        | None => s1 end, false)
+  else (sr_add s1 k t3, true).
+
+Inductive sr_op :=
+| OpRead (k : N)                       (* GetStakingRecordValue *)
+| OpCheck (k : N) (val_token delta : Z)(* a staking transaction touching the pending total *)
+| OpSet (k : N) (v : Z)                (* AddStakingRecord *)
+| OpFlush                              (* IntermediateRoot *)
+| OpReset.                             (* new staking period *)
+
+Definition sr_step (check : srdb -> N -> Z -> Z -> srdb * bool) (a : srdb * list Z) (o : sr_op) : srdb * list Z :=
+  let '(s, out) := a in
+  match o with
+  | OpRead k => let '(s', v) := sr_get s k in (s', out ++ [v])
+  | OpCheck k tok d => let '(s', b) := check s k tok d in (s', out ++ [if b then 1 else 0])
+  | OpSet k v => (sr_add s k v, out)
+  | OpFlush => (sr_flush s, out)
+  | OpReset => (sr_reset s, out)
+  end.
+Definition sr_run check (s : srdb) (ops : list sr_op) : srdb * list Z :=
+  fold_left (sr_step check) ops (s, []).
+
+(* the object cache agrees with the trie on every key that is not dirty: what
+   the harness checks on the real StateDB after every block *)
+Definition sr_coherent (s : srdb) : Prop :=
+  forall k v, sr_cache s k = Some v -> ~ In k (sr_dirty s) -> sr_trie s k = Some v.
+
+(* ===================================================================== *)
 (* Part 4: building and processing a block                                *)
 (* ===================================================================== *)
 
